@@ -24,7 +24,7 @@ import (
 func init() {
 	Registry["C14"] = &Check{
 		Scenarios: c14Scenarios,
-		Rule: "events: CloseNotify requested {inside the first handler, by a free application thread at every possible instant (in particular while the reader is parked in Read), twice (handler + thread), after termination}; two messages delivered in three fragments (one fragment boundary inside the first header); termination by {peer EOF, transport read error, a read error that reports itself as temporary (once), EOF / read error returned by the same Read that delivers the last message (n > 0 with err != nil), undecodable header followed by trailing bytes, local Close from a free thread at every instant, a handler panic on the second message (recovered by the serve loop)}; an observer thread records the instant the channel closes. The requesting / closing / observing threads and the peer are environment threads, so every ordering of their steps against the library's steps is explored even at preemption bound 0; library preemption bound 2 (quick) / unbounded (thorough). The same request modes {handler, thread, after} x terminations {EOF, undecodable input, local Close} on a multistream (in-memory SCTP) connection, where CloseNotify installs a read-error handler. Also sm.Client with the watchdog enabled followed by a quiet peer close, preceded by 0, 1, 2 or 3 unsolicited success DWAs (in one segment or one segment each) (virtual time, horizon 12 s).",
+		Rule: "events: CloseNotify requested {inside the first handler, by a free application thread at every possible instant (in particular while the reader is parked in Read), twice (handler + thread), after termination}; two messages delivered in three fragments (one fragment boundary inside the first header); termination by {peer EOF, transport read error, a read error that reports itself as temporary (once), EOF / read error returned by the same Read that delivers the last message (n > 0 with err != nil), undecodable header followed by trailing bytes, local Close from a free thread at every instant, a handler panic on the second message (recovered by the serve loop)}; an observer thread records the instant the channel closes. The requesting / closing / observing threads and the peer are environment threads, so every ordering of their steps against the library's steps is explored even at preemption bound 0; library preemption bound 2 (quick) / unbounded (thorough). The same request modes {handler, thread, after} x terminations {EOF, undecodable input, local Close} on a multistream (in-memory SCTP) connection, where CloseNotify installs a read-error handler. Also a connection accepted by a Server with ReadTimeout 2 s that idles into its read deadline (virtual clock), CloseNotify requested {in the handler, by a thread, not at all}. Also sm.Client with the watchdog enabled followed by a quiet peer close, preceded by 0, 1, 2 or 3 unsolicited success DWAs (in one segment or one segment each) (virtual time, horizon 12 s).",
 		Assume: []string{"data-race freedom between visible operations (audited separately with -race)", "io.Pipe is modelled by vsched.Pipe (Write blocks until the data is consumed or either end is closed)"},
 		QuickBudget: 100, ThoroughBudget: 1500,
 	}
@@ -74,6 +74,9 @@ func c14Scenarios(tier string) []*Scenario {
 		for _, term := range []string{"eof", "garbage", "localclose"} {
 			out = append(out, c14Multi(req, term, bound))
 		}
+	}
+	for _, req := range []string{"handler", "thread", "none"} {
+		out = append(out, c14ReadTimeout(req, bound))
 	}
 	out = append(out, c14Watchdog(bound), c14WatchdogStray(1, false, bound), c14WatchdogStray(2, true, bound), c14WatchdogStray(2, false, bound), c14WatchdogStray(3, true, bound))
 	// client handshakes that end exactly at the deadline: whatever the outcome, once the transport
@@ -454,3 +457,90 @@ var c14ValBound = func() int {
 	}
 	return vs.Unbounded
 }()
+
+// c14ReadTimeout: a connection accepted by a Server with ReadTimeout set. The peer sends two
+// messages and then stays idle: when the read deadline (on the virtual clock) expires the
+// connection terminates - a read error like any other. CloseNotify (requested by the first
+// handler, by a free application thread, or not at all) fires then and only then; both messages
+// were handled; every goroutine of the connection exits.
+func c14ReadTimeout(req string, bound int) *Scenario {
+	m1, m2 := c14msg(1), c14msg(2)
+	const rt = 2 * time.Second
+	body := func() {
+		st := &c14State{}
+		c14st = st
+		conn := vnet.NewConn("A")
+		conn.Pieces = 1
+		st.conn = conn
+		lis := vnet.NewListener()
+		request := func(c diam.Conn) {
+			ch := c.(diam.CloseNotifier).CloseNotify()
+			st.chs = append(st.chs, ch)
+			vs.GoNamed("observer", true, func() {
+				ch.Recv2()
+				st.seenClosed++
+				// the terminating event is the expiry of the read deadline armed before the last read
+				if vs.Now() < rt/2+rt && !st.conn.Closed {
+					st.early = fmt.Sprintf("a CloseNotify channel was closed at %v, before the read deadline (%v) had expired and while the connection was open", vs.Now(), rt/2+rt)
+				}
+			})
+		}
+		var dc diam.Conn
+		mux := diam.NewServeMux()
+		mux.HandleFunc("ALL", func(c diam.Conn, m *diam.Message) {
+			st.handled = append(st.handled, m.Header.HopByHopID)
+			dc = c
+			if req == "handler" && len(st.handled) == 1 {
+				request(c)
+			}
+		})
+		srv := &diam.Server{Handler: mux, Dict: dict.Default, ReadTimeout: rt}
+		lis.Offer(vnet.AcceptItem{Conn: conn})
+		vs.GoNamed("serve", false, func() { srv.Serve(lis) })
+		if req == "thread" {
+			vs.GoNamed("app-request", true, func() {
+				vs.BlockObj("wait-first-message", conn, func() bool { return dc != nil })
+				request(dc)
+			})
+		}
+		vs.GoNamed("peer", true, func() {
+			conn.Deliver(m1[:10])
+			vs.Yield("env")
+			conn.Deliver(m1[10:])
+			vs.TimeSleep(rt / 2)
+			conn.Deliver(m2)
+			// ... and nothing more: the connection idles into its read deadline
+			vs.BlockObj("wait-closed", conn, func() bool { return conn.Closed })
+			lis.Close()
+		})
+	}
+	check := func(s *vs.Sched) string {
+		st := c14st
+		var v []string
+		if p := s.Panics(); len(p) > 0 {
+			v = append(v, "panic: "+strings.Join(p, "; "))
+		}
+		if st.early != "" {
+			v = append(v, st.early)
+		}
+		if !st.conn.Closed {
+			v = append(v, fmt.Sprintf("the idle connection was not terminated although Server.ReadTimeout is %v", rt))
+		} else if want := rt/2 + rt; st.conn.ClosedAt != want {
+			v = append(v, fmt.Sprintf("the connection was closed at %v, the read deadline set before the last read expires at %v", st.conn.ClosedAt, want))
+		}
+		for i, ch := range st.chs {
+			if st.conn.Closed && !ch.IsClosed() {
+				v = append(v, fmt.Sprintf("connection terminated (read timeout) but CloseNotify channel %d was never closed", i))
+			}
+		}
+		if fmt.Sprint(st.handled) != "[1 2]" {
+			v = append(v, fmt.Sprintf("handlers saw messages %v, the peer sent [1 2]", st.handled))
+		}
+		if b := s.BlockedLib(); len(b) > 0 && st.conn.Closed {
+			v = append(v, "library goroutines still alive after the connection terminated: "+strings.Join(b, ", "))
+		}
+		return strings.Join(v, " | ")
+	}
+	return &Scenario{Name: "closenotify-read-timeout/" + req, Body: body, Check: check, Bound: bound, Horizon: 10 * time.Second,
+		Outcome: func(s *vs.Sched) string { return fmt.Sprint(c14st.handled, c14st.conn.ClosedAt, len(c14st.chs)) }}
+}
